@@ -229,7 +229,13 @@ func (x *Exec) callByContract(fr *Frame, st *State, ci ssa.CallInstruction, fc *
 	env.st = st
 	// lets are evaluated in the pre-state
 	for _, l := range fc.Lets {
+		var errs []string
+		env.tolerant = &errs
 		v := x.evalSpec(env, l.Expr)
+		env.tolerant = nil
+		if len(errs) > 0 {
+			continue
+		}
 		env.names[l.Name] = v
 	}
 	if fr.depth == 0 || true {
@@ -276,7 +282,17 @@ func (x *Exec) callByContract(fr *Frame, st *State, ci ssa.CallInstruction, fc *
 	}
 	env.st = st
 	for _, e := range fc.Ensures {
-		x.assume(st, x.evalBool(env, e.Expr))
+		// a clause that mentions the callee's local variables cannot be used at a call site: it
+		// is skipped (fewer assumptions – sound) and noted
+		var errs []string
+		env.tolerant = &errs
+		phi := x.evalBool(env, e.Expr)
+		env.tolerant = nil
+		if len(errs) > 0 {
+			x.vc.note(fmt.Sprintf("ensures %s of %s is not usable at call sites (%s)", e.Label, shortKey(fc.Key), errs[0]))
+			continue
+		}
+		x.assume(st, phi)
 	}
 	for _, ef := range fc.Effects {
 		v := x.evalSpec(env, ef.Expr)
